@@ -130,6 +130,13 @@ def witnesses() -> list[dict]:
     s[1]["edits"] = [{"kind": "variant", "scenario": "class-kind", "module": "d0", "from": 1, "to": 5}]
     s[2]["edits"] = [{"kind": "variant", "scenario": "class-kind", "module": "d0", "from": 5, "to": 3}]
     out.append({"name": n, "steps": s, "modes": ["normal", "skip"]})
+    # a property of a class that astdiff does not snapshot: @dataclass ↦ @dataclass(frozen=True)
+    DCU = "from d0 import DC\ndef f(d: DC) -> None:\n    d.a = 2\n"
+    DCV = "from dataclasses import dataclass\nfrom d0 import DC\n@dataclass\nclass Sub(DC):\n    z: int = 0\n"
+    n, s = raw("dataclass-frozen", {"d0.py": "from dataclasses import dataclass\n@dataclass\nclass DC:\n    a: int\n", "u0.py": DCU, "v0.py": DCV},
+               {"d0.py": "from dataclasses import dataclass\n@dataclass(frozen=True)\nclass DC:\n    a: int\n", "u0.py": DCU, "v0.py": DCV})
+    s[1]["edits"] = [{"kind": "variant", "scenario": "dataclass", "module": "d0", "from": 0, "to": 3}]
+    out.append({"name": n, "steps": s, "modes": ["normal", "skip"]})
     # blocking error pending in b.py, then b.pyi appears (N1) / b.py becomes b/__init__.py still broken (N2)
     BAD = "def f() -> int:\n    return 1\ndef broken(:\n"
     n, s = raw("blocker-then-stub", {"a.py": A, "b.py": "def f() -> int:\n    return 1\n"}, {"a.py": A, "b.py": BAD},
@@ -204,9 +211,16 @@ MISSING_DEP_SHAPES = [
     # the attribute did not exist in the base class when the subclass' module was analysed: deps.py adds
     # <Base.x> -> <Sub.x> only for names present in the base at that time, and adding x does not reprocess the subclass
     ("inherited-attr", 2, "attribute-added-to-base-after-subclass-was-analysed"),
+    ("self-type", 2, "attribute-added-to-base-after-subclass-was-analysed"),     # the same, for `self.attr = …` in a base method
     # the name was a variable of declared type Any (valid as a type, analysed to Any): no dependency on the name
     # is recorded for the annotation that used it
     ("class-kind", 5, "annotation-resolved-to-any-typed-variable"),
+]
+
+
+# (scenario, variant switched to or from in this step, pattern of the missed messages, shape)
+SNAPSHOT_SHAPES = [
+    ("dataclass", 3, r"read-only|frozen", "dataclass-frozen-flag"),
 ]
 
 
@@ -253,6 +267,15 @@ def explain(diff: list[str], dm: dict, fm: dict, hist_state: dict) -> tuple[list
                     mine = [l for l in minus if re.match(r"^[a-z]+" + idx + r"(\.pyi?|/)", l)]
                     if mine:
                         obs.append({"class": "missing-dependency", "scenario": scen, "shape": shape})
+                        minus = [l for l in minus if l not in mine]
+    # (g) properties of a definition that the snapshot (astdiff.py) does not contain: switching them fires no trigger
+    if minus and hist_state.get("variants") and hist_state.get("scenario_history"):
+        for idx, ent in hist_state["variants"].items():
+            for scen, variant, pattern, shape in SNAPSHOT_SHAPES:
+                if ent["scenario"] == scen and len(ent["hist"]) >= 2 and variant in ent["hist"][-2:]:
+                    mine = [l for l in minus if re.match(r"^[a-z]+" + idx + r"(\.pyi?|/)", l) and re.search(pattern, l)]
+                    if mine:
+                        obs.append({"class": "snapshot-incomplete", "scenario": scen, "shape": shape})
                         minus = [l for l in minus if l not in mine]
     # order-only differences caused by a moved note are part of (a)
     if any(o["class"] == "only-once-note-moves" for o in obs):
@@ -906,7 +929,7 @@ def replay(ctx: Ctx, path: str) -> int:
     if "history" not in det:
         print(json.dumps(det, indent=1)[:4000])
         return 0
-    job = {"hid": "replay", "kind": "replay", "name": "replay", "mode": det.get("mode", "normal"), "steps": det["history"], "trace": False}
+    job = {"hid": "replay", "kind": "replay", "name": "replay", "mode": det.get("mode", "normal"), "steps": det["history"], "trace": True}
     h = run_job(ctx, job)
     for k, r in enumerate(h["result"]):
         d, f = r["daemon"], r["full"]
@@ -915,4 +938,8 @@ def replay(ctx: Ctx, path: str) -> int:
             print(f"step {k}: daemon status {d['status']} full status {f['status']} diff {diff}")
         else:
             print(f"step {k}: daemon {d.get('crash', 'dead')} {d.get('message', '')} {d.get('where', '')}; full status {f.get('status')}")
+    bad = algorithm_correspondence(ctx, [h])
+    print(f"level (i): {ctx.coverage.get('traces_validated_against_impl', 0)} propagate/update calls replayed on the model, {len(bad)} disagree")
+    for _h, k, why, detail in bad[:5]:
+        print(f"  step {k}: {why}")
     return 0
